@@ -109,6 +109,9 @@ class Sim:
                 self._schedule_writer(w, 0, self.now + delay, header=True)
             else:
                 keep = img.boundaries()[n]
+                if not os.path.exists(p):
+                    os.makedirs(os.path.dirname(p), exist_ok=True)
+                    open(p, "wb").close()
                 os.truncate(p, keep)
                 self.bytes_written[w] = keep
                 self.done_records[w] = n
